@@ -209,7 +209,8 @@ function genC16(mods, SPC, index) {
   const cfg = { refPathTemplate: rng.pick(TEMPLATES), definitionContainerKey: rng.pick(CONTAINERS), overrides: {} };
   if (defNames.length && rng.chance(1, 3)) {
     const n = rng.range(1, Math.min(2, defNames.length));
-    for (let i = 0; i < n; i++) cfg.overrides[rng.pick(defNames)] = rng.pick(mod.names);
+    // (one override in three, where the module has one, is a parser that cannot be printed)
+    for (let i = 0; i < n; i++) cfg.overrides[rng.pick(defNames)] = mod.throwing.length && rng.chance(1, 3) ? rng.pick(mod.throwing) : rng.pick(mod.names);
   }
   const nops = rng.range(1, 12);
   const ops = [];
